@@ -1066,26 +1066,36 @@ def custom_abort(tier, rng, facts):
         if rc != 0:
             problems.append(('build', 'harness does not build (%s/%s): %s' % (cfg, profile, out[-800:]), dict(kind='unproved', stage='harness-build', output=out[-3000:]))); continue
         cov['configs'].append('%s/%s' % (cfg, profile))
-        jobs = [(e, c) for e in sorted(ABORT_ENTRIES) for c in ABORT_COUNTS]
+        # ... and, for the counts above the limit, again with a standard error stream that cannot be written to (a pipe
+        # whose reader is gone): whatever the process does on its way down must not turn the abort into a panic
+        jobs = [(e, c, False) for e in sorted(ABORT_ENTRIES) for c in ABORT_COUNTS] + \
+               [(e, c, True) for e in (0, 3, 4, 7, 9) for c in ABORT_COUNTS if c > 2 ** 63 - 1]
         procs = []
-        def launch(e, c):
-            return subprocess.Popen([exe, 'abortchild', str(e), str(c)], stdout=subprocess.PIPE, stderr=subprocess.DEVNULL, env=vlib.ENV)
+        def launch(e, c, broken):
+            if not broken:
+                return subprocess.Popen([exe, 'abortchild', str(e), str(c)], stdout=subprocess.PIPE, stderr=subprocess.DEVNULL, env=vlib.ENV)
+            r, w = os.pipe(); os.close(r)
+            try:
+                return subprocess.Popen([exe, 'abortchild', str(e), str(c)], stdout=subprocess.PIPE, stderr=w, env=vlib.ENV)
+            finally:
+                os.close(w)
         i = 0
         results = []
         while i < len(jobs) or procs:
             while i < len(jobs) and len(procs) < vlib.NPROC:
                 procs.append((jobs[i], launch(*jobs[i]))); i += 1
-            (e, c), p = procs.pop(0)
+            (e, c, broken), p = procs.pop(0)
             try:
                 so, _ = p.communicate(timeout=60)
             except subprocess.TimeoutExpired:
                 p.kill(); so = b'TIMEOUT'
-            results.append((e, c, p.returncode, so.decode('utf-8', 'replace').split()))
-        for e, c, rc2, words in results:
+            results.append((e, c, broken, p.returncode, so.decode('utf-8', 'replace').split()))
+        for e, c, broken, rc2, words in results:
             cov['children'] += 1
+            if broken: cov['with_unwritable_stderr'] = cov.get('with_unwritable_stderr', 0) + 1
             expect_abort = c > 2 ** 63 - 1
-            case = dict(stream='abort', cfg=cfg, profile=profile, entry=ABORT_ENTRIES[e], start_count=c)
-            nontrivial.add('%d:%d' % (e, c))
+            case = dict(stream='abort', cfg=cfg, profile=profile, entry=ABORT_ENTRIES[e], start_count=c, stderr='a pipe without a reader' if broken else 'discarded')
+            nontrivial.add('%d:%d:%d' % (e, c, broken))
             if len(samples) < 3: samples.append(dict(case, exit=rc2, output=words))
             if expect_abort:
                 if rc2 == -6 and words == ['MARK']:
@@ -1111,7 +1121,7 @@ def c16_side(facts):
             ('atomic_sites_closed_world', bool(P.get('closed')), 'sites outside the modelled functions: %s' % P.get('unmodelled_sites'))]
 
 PROPS['C16'] = dict(streams=[dict(stream='abort', custom=custom_abort,
-                                  rule='one child process per (clone entry point, starting count): 13 entry points (Arc of sized/slice/trait object/header-slice, ThinArc, OffsetArc::clone/clone_arc, ArcBorrow::clone_arc, ArcUnion first/second, clones inside the three callback forms) x 10 starting counts {1, 2, 2^31, 2^32, isize::MAX-1, isize::MAX, +1, +2, usize::MAX-1, usize::MAX} preset through the counter address the hook reports, in std and no_std builds; expected: count+1, or SIGABRT with no output after the marker; every case is non-trivial; distinct = distinct (entry, count)')],
+                                  rule='one child process per (clone entry point, starting count): 13 entry points (Arc of sized/slice/trait object/header-slice, ThinArc, OffsetArc::clone/clone_arc, ArcBorrow::clone_arc, ArcUnion first/second, clones inside the three callback forms) x 10 starting counts {1, 2, 2^31, 2^32, isize::MAX-1, isize::MAX, +1, +2, usize::MAX-1, usize::MAX} preset through the counter address the hook reports, in std and no_std builds, and for the counts above the limit once more with a standard error stream that cannot be written to; expected: count+1, or SIGABRT with no output after the marker; every case is non-trivial; distinct = distinct (entry, count)')],
                     side_obligations=c16_side, facts_view=lambda f: dict((k, (f.get('protocol') or {}).get(k)) for k in ['guard', 'max_refcount', 'abort_std', 'abort_nostd', 'inc_ord']),
                     assumptions=['a panic raised while a panic is already unwinding aborts the process (Rust runtime behaviour; exercised by the no_std children)',
                                  'the count is preset by writing to the address the verification hook reports for the counter'])
@@ -1722,8 +1732,8 @@ def gen_dpanic(tier, rng):
     # copy-on-write / unwrap_or_clone of a shared value whose type has no drop glue, is not Copy, and whose Clone is not a bitwise copy
     for j in range(0, 4): cases.append(('D%d' % n, [[44 + j, 0, 0]])); n += 1
     # zero-sized headers / payloads with drop glue through the constructors
-    for j in range(0, 12): cases.append(('D%d' % n, [[48 + j, 0, 0]])); n += 1
-    for op in ([29, 1, 0], [20, 40, 0], [45, 1, 1], [40, 1, 0], [60, 0, 0], [48, 1, 0]): cases.append(('D%d' % n, [op])); n += 1
+    for j in range(0, 17): cases.append(('D%d' % n, [[48 + j, 0, 0]])); n += 1
+    for op in ([29, 1, 0], [20, 40, 0], [45, 1, 1], [40, 1, 0], [70, 0, 0], [48, 1, 0]): cases.append(('D%d' % n, [op])); n += 1
     return cases
 
 def oracle_dpanic(ops, io, ctx):
@@ -1733,6 +1743,20 @@ def oracle_dpanic(ops, io, ctx):
     parts = ct_split(o)
     if len(parts) != 3: return 'malformed observation'
     d = parts[1]
+    if 60 <= op[0] < 65:
+        what = ['Arc<[T]>::from(Vec<T>)', 'Arc::from_header_and_vec', 'collecting an inexact iterator', 'Arc::make_mut on a shared value', 'OffsetArc::make_mut on a shared value'][op[0] - 60]
+        if len(parts[2]) < 5: return 'malformed observation'
+        during, total, sixth, bad, outstanding = parts[2][:5]
+        if outstanding: return '%s with zero-sized values: %d block(s) allocated and never released' % (what, outstanding if outstanding < 2 ** 63 else outstanding - 2 ** 64)
+        if op[0] < 63:
+            if during != 0: return '%s with zero-sized elements that have a destructor: %d of them were destroyed by the constructor, while the handle is alive (they are moved into the handle, which destroys them)' % (what, during)
+            if total != 3: return '%s with zero-sized elements that have a destructor: %d destructor calls for 3 values' % (what, total)
+            if bad: return '%s with zero-sized elements: wrong length, or an access to a dead value' % what
+            return None
+        if sixth != 1: return '%s of a zero-sized type: Clone was called %d times (the copy must be made with Clone, once)' % (what, sixth)
+        if bad: return '%s of a zero-sized type: the handle was not redirected to a block of its own (the counts are not 1 and 1)' % what
+        if total != 2: return '%s of a zero-sized type: %d values destroyed in the end (2 expected)' % (what, total)
+        return None
     if 48 <= op[0] < 60:
         what = ['UniqueArc::from_header_and_uninit_slice (dropped uninitialised)', 'from_header_and_uninit_slice + assume_init_slice_with_header, shared', 'Arc::from_header_and_iter',
                 'Arc::from_header_and_vec', 'Arc::from(Box<T>)', 'Arc::new', 'Arc::try_unwrap by the sole owner', 'Arc::unwrap_or_clone by the sole owner',
@@ -1819,7 +1843,7 @@ PROPS['C09']['streams'] = PROPS['C09']['streams'] + [DPANIC_STREAM]
 # miri scenarios per property
 for _pid, _pre in (('C01', ['c01_', 'c04_']), ('C02', ['c02_']), ('C03', ['c03_']), ('C04', ['c04_']), ('C05', ['c05_', 'c06_', 'c01_thin', 'c01_union', 'c09_']),
                    ('C06', ['c06_']), ('C07', ['c07_']), ('C08', ['c08_']), ('C09', ['c09_']), ('C10', ['c10_', 'c01_thin']), ('C11', ['c11_']),
-                   ('C12', ['c01_union', 'c14_', 'c04_counts']), ('C14', ['c14_']), ('C15', ['c15_']), ('C17', ['c17_'])):
+                   ('C12', ['c12_', 'c01_union', 'c14_', 'c04_counts', 'c05_shapes']), ('C14', ['c14_']), ('C15', ['c15_']), ('C17', ['c17_'])):
     PROPS[_pid]['streams'] = PROPS[_pid]['streams'] + [MIRI_STREAM(_pre, {'C01': ('mech',), 'C11': ('ptr',), 'C14': ('cmp',)}.get(_pid, ()))]
 # the schedule stream: real threads against the machine of the translated counter programs
 PROPS['C02']['streams'] = PROPS['C02']['streams'] + [SCHED_STREAM('drops')]
